@@ -2,7 +2,7 @@
 # tools/seed_confirm.sh <ID> <n> <pkgdir> <TestRegex> : confirm a seeded change in its scratch worktree:
 # demo fails with the change, passes without; build ok; pinned suite passes with the change.
 ID=$1; N=$2; PKG=$3; RX=$4
-WT=/tmp/wt/$ID; S=/tmp/seed/$ID
+WT=/tmp/wt/$ID; S=${SEEDDIR:-/tmp/seed}/$ID
 export GOFLAGS=-mod=mod GOPROXY=off
 cd $WT || exit 2
 git checkout -q -- . ; git clean -fdq
